@@ -232,3 +232,8 @@ func IteInt(c bool, a, b int) int {
 	}
 	return b
 }
+
+// PEMLen sets the length of the DER bytes the uninterpreted pem.Decode model yields.  Natively
+// the real encoding/pem is used, so harnesses that rely on the model describe their PEM inputs
+// through PEMOf.
+func PEMLen(n int) {}
